@@ -27,6 +27,8 @@ Inductive c11_event :=
 | EPeerClose (g : nat)                  (* the server is about to close g *)
 | EObsClosed (g : nat)                  (* the harness read: closed flag set, current connection g *)
 | EObsPush                              (* push mode: the adapter switched to a new transport client *)
+| ECliClose (g : nat)                   (* the server saw the client close g *)
+| ECFlag (g : nat) (closed : bool)      (* the harness read: current connection g, closed flag *)
 | EReply (id : nat)
 | EFail (id : nat).
 
@@ -120,7 +122,7 @@ Inductive label :=
 | LSHook (g : nat) | LSWriteOk (g : nat) | LSWriteErr (g : nat) | LSFailPush (g : nat) | LSFailClose (g : nat)
 (* harness log *)
 | LLogEnq (id : nat) | LLogPClose (g : nat) | LLogObs (g : nat) | LLogSrv (g id : nat) | LLogReply (id : nat)
-| LLogFail (id : nat) | LLogDial (g : nat).
+| LLogFail (id : nat) | LLogDial (g : nat) | LLogCliClose (g : nat) | LLogCFlag (g : nat).
 
 Section Model.
 Variable fixed : bool.
@@ -267,6 +269,8 @@ Definition step (s : st) (l : label) : option st :=
   | LLogReply id => if mem2 id (lsrv s) then Some (w_log s (EReply id)) else None
   | LLogFail id => if memn id (lenq s) then Some (w_log s (EFail id)) else None
   | LLogDial g => if (g =? ldial s) && (g <? ngen s) then Some (w_log (w_ldial s (S g)) (EDial g)) else None
+  | LLogCliClose g => if (g <? ngen s) && dead (gens s g) then Some (w_log s (ECliClose g)) else None
+  | LLogCFlag g => if is_cur s g then Some (w_log s (ECFlag g (closedF s))) else None
   end.
 
 Fixpoint run (s : st) (ls : list label) : option st :=
@@ -281,7 +285,7 @@ End Model.
 Definition internal (l : label) : bool :=
   match l with
   | LReconnect | LEnq _ | LUserClose | LPeerClose _ | LLogEnq _ | LLogPClose _ | LLogObs _ | LLogSrv _ _
-  | LLogReply _ | LLogFail _ | LLogDial _ | LSIdleClose _ | LSBlkTick _ => false
+  | LLogReply _ | LLogFail _ | LLogDial _ | LLogCliClose _ | LLogCFlag _ | LSIdleClose _ | LSBlkTick _ => false
   | _ => true
   end.
 
@@ -321,6 +325,8 @@ Definition chk_step (k : chk) (e : c11_event) : option chk :=
       if memn g (k_pclosed k)
       then Some (mkChk (k_dialed k) (k_pclosed k) (if memn g (k_obs k) then k_obs k else k_obs k ++ [g]) (k_enq k) (k_late k) (k_writes k) (k_srvs k)) else None
   | EObsPush => Some k
+  | ECliClose g => if memn g (k_pclosed k) then Some k else None
+  | ECFlag g closed => if negb closed || memn g (k_pclosed k) then Some k else None
   | EReply id => if mem2 id (k_srvs k) then Some k else None
   | EFail id => if memn id (k_enq k) then Some k else None
   end.
